@@ -486,6 +486,15 @@ func (b *broker) syncSubscribe(subscriber *wamp.Session, msg *wamp.Subscribe, ma
 	b.syncPubSubMeta(wamp.MetaEventSubOnSubscribe, subscriber.ID, sub.id)
 }
 
+// syncKeepsHistory returns true if the subscription is configured to keep
+// event history. Such a subscription is created at startup and must not be
+// deleted when its last subscriber leaves, or its history is lost and no
+// further events are stored.
+func (b *broker) syncKeepsHistory(sub *subscription) bool {
+	_, ok := b.eventHistoryStore[sub]
+	return ok
+}
+
 // syncDeleteSubscription removes the the ID->subscription mapping and removes
 // the topic->subscription mapping.
 func (b *broker) syncDelSubscription(sub *subscription) {
@@ -536,9 +545,10 @@ func (b *broker) syncUnsubscribe(subscriber *wamp.Session, msg *wamp.Unsubscribe
 	delete(sub.subscribers, subscriber)
 
 	// If no more subscribers on this subscription, delete subscription and
-	// send on_delete meta event.
+	// send on_delete meta event. A subscription that is configured to keep
+	// event history stays, with its history, also without subscribers.
 	var delLastSub bool
-	if len(sub.subscribers) == 0 {
+	if len(sub.subscribers) == 0 && !b.syncKeepsHistory(sub) {
 		b.syncDelSubscription(sub)
 		delLastSub = true
 	}
@@ -590,8 +600,9 @@ func (b *broker) syncRemoveSession(subscriber *wamp.Session) {
 		// Remove subscribed session from subscription.
 		delete(sub.subscribers, subscriber)
 
-		// If no more subscribers on this subscription.
-		if len(sub.subscribers) == 0 {
+		// If no more subscribers on this subscription, and it does not exist
+		// to keep event history.
+		if len(sub.subscribers) == 0 && !b.syncKeepsHistory(sub) {
 			b.syncDelSubscription(sub)
 			// Fired when a subscription is deleted after the last session
 			// attached to it has been removed.
@@ -971,11 +982,13 @@ func (b *broker) subGet(msg *wamp.Invocation) wamp.Message {
 // attached to the subscription.
 func (b *broker) subListSubscribers(msg *wamp.Invocation) wamp.Message {
 	var subscriberIDs []wamp.ID
+	var found bool
 	if len(msg.Arguments) != 0 {
 		if subID, ok := wamp.AsID(msg.Arguments[0]); ok {
 			sync := make(chan struct{})
 			b.actionChan <- func() {
 				if sub, ok := b.subscriptions[subID]; ok {
+					found = true
 					subscriberIDs = make([]wamp.ID, len(sub.subscribers))
 					var i int
 					for subscriber := range sub.subscribers {
@@ -988,7 +1001,7 @@ func (b *broker) subListSubscribers(msg *wamp.Invocation) wamp.Message {
 			<-sync
 		}
 	}
-	if len(subscriberIDs) == 0 {
+	if !found {
 		return &wamp.Error{
 			Type:    msg.MessageType(),
 			Request: msg.Request,
